@@ -1,3 +1,4 @@
+from numbers import Integral
 from typing import Any
 
 from dliswriter.utils.internal.converters import get_ascii_bytes
@@ -45,6 +46,15 @@ class StorageUnitLabel:
         if max_record_length > self.max_record_length_limit:
             raise ValueError(f"Max record length cannot be larger than {self.max_record_length_limit}")
 
+    @staticmethod
+    def _check_sequence_number(sequence_number: Any) -> None:
+        """Check that the sequence number is (the text of) a positive integer, as the label requires."""
+
+        is_int = isinstance(sequence_number, Integral) and not isinstance(sequence_number, bool)
+        is_int_text = isinstance(sequence_number, str) and sequence_number.isascii() and sequence_number.isdigit()
+        if not (is_int or is_int_text) or int(sequence_number) < 1:
+            raise ValueError(f"Sequence number of the storage unit must be a positive integer; got {repr(sequence_number)}")
+
     def __repr__(self) -> str:
         return (f"{self.__class__.__name__}(sequence_number={self.sequence_number}, "
                 f"set_identifier={self.set_identifier}, max_record_length={self.max_record_length})")
@@ -73,6 +83,7 @@ class StorageUnitLabel:
         """
 
         # Storage Unit Sequence Number
+        self._check_sequence_number(self.sequence_number)
         _susn_as_bytes = get_ascii_bytes(str(self.sequence_number), 4)
 
         # DLIS Version
